@@ -63,10 +63,13 @@ def r11_1(ctx, R):
             elif e[0] == "agg" and e[1].endswith("Poll::Ready") and e[2][0][0] == "agg" and e[2][0][1].endswith("Option::None"):
                 fs = vf.get(rb, frozenset())
                 ok = (dest, "Ready") in fs and ("(%s as Ready).0" % dest, "None") in fs
+                if not ok:
+                    ok = _arrivals_know(b, fl, rb, {dest: "Ready", "(%s as Ready).0" % dest: "None"})
                 ctx.ob("R11.1", b, "none-only-forwarded", ok, b.loc(rb), str(sorted(fs)))
             elif e[0] == "agg" and e[1].endswith("Poll::Pending"):
                 fs = vf.get(rb, frozenset())
-                ctx.ob("R11.1", b, "pending-only-forwarded", (dest, "Pending") in fs, b.loc(rb), str(sorted(fs)))
+                ok = (dest, "Pending") in fs or _arrivals_know(b, fl, rb, {dest: "Pending"})
+                ctx.ob("R11.1", b, "pending-only-forwarded", ok, b.loc(rb), str(sorted(fs)))
             else:
                 ctx.ob("R11.1", b, "unexpected-return-value", False, b.loc(rb), expr_str(e))
         lds = live_drops(ctx, b, ITEM)
@@ -139,6 +142,17 @@ def r11_2(ctx, R):
     ctx.rule("R2.4", "see C02 R2.4 (shared): Ready(None) only behind emptiness")
     c01.r1_7(ctx, R)
     ctx.rule("R1.7", "see C01 R1.7 (shared): every group polled with the caller's cx before Pending")
+
+
+def _arrivals_know(b, fl, rb, req):
+    """On every constant-feasible arrival at rb the path knowledge contains all of `req` (the drain's answer is carried to this
+    return through the verdict enum of an inlined helper)."""
+    from lib_flow import arrival_knowledge
+    try:
+        ak = arrival_knowledge(b, fl, rb, const_feasible=True)
+    except RuntimeError:
+        return False
+    return bool(ak) and all(all(k_.get(p_) == v_ for p_, v_ in req.items()) for k_ in ak)
 
 
 def group_removal_rule(ctx, R, rid, only=None):
